@@ -49,8 +49,11 @@ Begin ==
           /\ dead' = ~l2
     /\ act' = act /\ l' = 1 /\ UNCHANGED <<tid, nev>>
 
+\* strong forms and, for those the code as it is does not meet in corner cases, the forms it does meet
 L1Clauses == {"StartConsistent", "SignalDiscipline", "KillAfterGrace", "NoSurvivor", "FailureReported",
-              "StopCoversAll", "TelemetryOrder", "TelemetryComplete"}
+              "StopCoversAll", "TelemetryOrder", "TelemetryComplete",
+              "StartConsistentClean", "NoSurvivorWeak", "StopCoversAllOk", "TelemetryCompleteFound"}
+NoStaleFile == \A i \in 1..Item.scn.n : Item.init.pidf[i] # "stale"
 
 Consume ==
     /\ tid <= Len(Traces) /\ l >= 1 /\ l <= Len(Item.events)
@@ -69,7 +72,11 @@ Consume ==
                      [] c = "FailureReported" -> FailureReportedS(s')
                      [] c = "StopCoversAll" -> StopCoversAllS(s')
                      [] c = "TelemetryOrder" -> TelemetryOrderS(s')
-                     [] c = "TelemetryComplete" -> TelemetryCompleteS(s')]
+                     [] c = "TelemetryComplete" -> TelemetryCompleteS(s')
+                     [] c = "StartConsistentClean" -> (NoStaleFile => StartConsistentS(s'))
+                     [] c = "NoSurvivorWeak" -> NoSurvivorWeakS(s')
+                     [] c = "StopCoversAllOk" -> StopCoversAllOkS(s')
+                     [] c = "TelemetryCompleteFound" -> TelemetryCompleteFoundS(s')]
                  l1 == {c \in L1Clauses : ~holds[c]}
              IN /\ IF l1 = {} THEN TRUE ELSE PrintT(<<"V", Item.id, l, "L1", l1>>)
                 /\ IF dead \/ l2 THEN TRUE ELSE PrintT(<<"V", Item.id, l, "L2", {e.a}>>)
